@@ -165,7 +165,25 @@ struct _GHashTable {
 	gboolean used[VERIF_HCAP];
 };
 guint g_str_hash(gconstpointer v) { (void)v; return 0; }
+#ifdef VERIF_KEY4
+/* loop-free strcmp()==0 for NUL-terminated keys of at most 4 bytes incl. the terminator (the node
+ * table's address keys: "at the latest index 3 must be 0x00"); a key that is not terminated
+ * within 4 bytes is a MODEL failure, never silently accepted */
+static gboolean v_str_equal(gconstpointer pa, gconstpointer pb) {
+	const char *a = pa, *b = pb;
+	if (a[0] != b[0]) return FALSE;
+	if (a[0] == 0) return TRUE;
+	if (a[1] != b[1]) return FALSE;
+	if (a[1] == 0) return TRUE;
+	if (a[2] != b[2]) return FALSE;
+	if (a[2] == 0) return TRUE;
+	if (a[3] != b[3]) return FALSE;
+	__CPROVER_assert(a[3] == 0, "MODEL: hash key longer than 3 address bytes (precondition: index 3 is 0)");
+	return TRUE;
+}
+#else
 static gboolean v_str_equal(gconstpointer a, gconstpointer b) { return strcmp(a, b) == 0; }
+#endif
 gboolean (g_str_equal)(gconstpointer a, gconstpointer b) { return v_str_equal(a, b); }
 GHashTable *g_hash_table_new(GHashFunc h, GEqualFunc e) {
 	(void)h;
